@@ -381,13 +381,18 @@ func c10FakePackage(r *an.Run) {
 		return
 	}
 	n := 0
-	for _, in := range an.StoresIn(f) {
+	anchor := f
+	var stores []ssa.Instruction
+	for _, g := range helperGroup(anchor, 2) {
+		stores = append(stores, an.StoresIn(g)...)
+	}
+	for _, in := range stores {
 		st, ok := in.(*ssa.Store)
 		if !ok {
 			continue
 		}
 		fa, ok := st.Addr.(*ssa.FieldAddr)
-		if !ok || fieldNameOf(fa) != "Package" {
+		if !ok || fieldNameOf(fa) != "Package" || !isPgoFile(fa.X.Type()) {
 			continue
 		}
 		s, isc := an.ConstString(st.Val)
@@ -395,6 +400,7 @@ func c10FakePackage(r *an.Run) {
 			continue
 		}
 		n++
+		f := st.Parent() // the clearing may live in a helper of Parse
 		// reachable only under `augs[0].(*augment.FakePackage)` ok
 		guarded := false
 		for _, b := range f.Blocks {
@@ -420,7 +426,7 @@ func c10FakePackage(r *an.Run) {
 		}
 		r.Check(guarded, short(f)+"|clear-package", st.Pos(), "the parsed package name is discarded exactly when the first augmentation is the fake package clause gopatch added itself")
 	}
-	r.Check(n == 1, short(f)+"|clears", f.Pos(), "pgo.Parse has one place that clears the package name (found %d)", n)
+	r.Check(n == 1, short(anchor)+"|clears", anchor.Pos(), "pgo.Parse has one place that clears the package name (found %d)", n)
 }
 
 func c10Lookup(r *an.Run) {
